@@ -68,9 +68,14 @@ def candidates(case):
                 yield _set(case, path, ["blk", obj[3]])
             elif op == "with":
                 yield _set(case, path, ["blk", obj[2]])
-            elif op in ("t", "l", "d") and len(path) and obj[1]:
+            elif op in ("t", "l", "d") and len(path) and len(obj) == 2 and isinstance(obj[1], list) and obj[1] \
+                    and all(isinstance(c, list) for c in obj[1]):
                 for c in obj[1]:
-                    yield _set(case, path, c[1] if op == "d" else c)
+                    if op == "d":
+                        if len(c) == 2 and isinstance(c[1], list):
+                            yield _set(case, path, c[1])
+                    else:
+                        yield _set(case, path, c)
                 yield _set(case, path, ["const", 0])
             elif op in NODE_OPS:
                 yield _set(case, path, ["const", 0])
